@@ -138,6 +138,47 @@ def extract():
         if m2:
             lo, hi = rust_int(m2.group(1)), rust_int(m2.group(2)) + 1
     facts["debugAbbrevThreshold"], facts["debugWindowLo"], facts["debugWindowHi"] = thr, lo, hi
+
+    # ---- thread-safety markers ---------------------------------------------------------------
+    n = strip_comments(read("cstree/src/syntax/node.rs"))
+
+    def impl_bounds(src, marker, ty):
+        """bounds on the data parameter `D` of `unsafe impl<..> marker for ty<S, D>` (header + where)"""
+        m = re.search(r"unsafe\s+impl\s*<([^>]*(?:<[^>]*>[^>]*)*)>\s*" + marker + r"\s+for\s+" + ty + r"\s*<[^>]*>\s*(where[^{]*)?\{", src)
+        if not m:
+            return None
+        text = m.group(1) + " " + (m.group(2) or "")
+        # collect everything said about D
+        dparts = re.findall(r"\bD\s*:\s*([^,]*)", text)
+        said = " + ".join(dparts)
+        return (bool(re.search(r"\bSend\b", said)), bool(re.search(r"\bSync\b", said)))
+
+    for marker in ("Send", "Sync"):
+        b = impl_bounds(n, marker, "SyntaxNode")
+        facts[f"node{marker}NeedsDSend"] = None if b is None else b[0]
+        facts[f"node{marker}NeedsDSync"] = None if b is None else b[1]
+    # every other unsafe impl of Send/Sync in the syntax module would bypass these bounds
+    extra = 0
+    for rel in ("cstree/src/syntax/token.rs", "cstree/src/syntax/resolved.rs", "cstree/src/syntax/element.rs",
+                "cstree/src/syntax/iter.rs", "cstree/src/syntax/text.rs"):
+        extra += len(re.findall(r"unsafe\s+impl[^{;]*\b(Send|Sync)\b\s+for", strip_comments(read(rel))))
+    facts["otherUnsafeMarkerImpls"] = extra
+
+    def ctor_bounds(src):
+        m = re.search(r"fn\s+new_root_with_resolver\s*(<[^>]*>)?\s*\(([^)]*)\)[^{]*\{", src)
+        if not m:
+            return None
+        sig = (m.group(1) or "") + m.group(2) + src[m.start():m.end()]
+        return (bool(re.search(r"\bSend\b", sig)), bool(re.search(r"\bSync\b", sig)))
+
+    cb1 = ctor_bounds(n)
+    cb2 = ctor_bounds(strip_comments(read("cstree/src/syntax/resolved.rs")))
+    facts["ctorNeedsRSend"] = None if (cb1 is None or cb2 is None) else (cb1[0] and cb2[0])
+    facts["ctorNeedsRSync"] = None if (cb1 is None or cb2 is None) else (cb1[1] and cb2[1])
+    # green elements: unconditional impls for GreenToken, PackedGreenElement conditional on the two green types
+    gt = strip_comments(read("cstree/src/green/token.rs"))
+    facts["greenTokenMarkersUnconditional"] = bool(re.search(r"unsafe\s+impl\s+Send\s+for\s+GreenToken\s*\{\s*\}", gt)) and bool(
+        re.search(r"unsafe\s+impl\s+Sync\s+for\s+GreenToken\s*\{\s*\}", gt))
     return facts, notes
 
 
